@@ -29,6 +29,11 @@ def run(ctx):
     fails = sum(v for k, v in ctx.hist.items() if k.endswith(':ERR'))
     ctx.cov['failing_calls_checked'] = fails
     ctx.nontrivial = {('\n'.join(s)) for s, o in zip(H, impl) if any(x.split('|')[0] == 'ERR' and l.split(' ')[0] in ('UPD', 'RK', 'RF', 'KG') for l, x in zip(s, o or []))}
+    if not ctx.quick() and not hits:
+        x = hist.x
+        hc.exhaustive(ctx, 'failing-call sequences', ['SETUP', 'AH '+x('D'), 'AT '+x('D')+' '+x('a')+' 0 -', 'AT '+x('D')+' '+x('b')+' 1 '+x('a'), 'AT '+x('D')+' '+x('c')+' 0 '+x('b'), 'AA '+x('S'), 'AT '+x('S')+' '+x('p')+' 0 -', 'UPD', 'KG '+x('D::b'), 'KG '+x('D::c && S::p'), 'EN 1 '+x('D::a'), 'EN 1 '+x('D::c')],
+            ['AT '+x('D')+' '+x('q')+' 0 -', 'DS '+x('D')+' '+x('q'), 'DS '+x('D')+' '+x('a'), 'UPD', 'RK '+x('D::q'), 'RK '+x('*'), 'KG '+x('D::q'), 'SNAP', 'REST 0', 'RF 0 0', 'RF 2 1', 'DT '+x('D')+' '+x('b')],
+            5, ['RF 0 1', 'RF 1 0', 'UPD'], claims=lambda op, a, b: False)
     hc.vm_crosscheck(ctx, H, model)
     hc.finish(ctx, f'{n} random histories with injected failing calls (born-disabled right among k new rights at random positions; rekey over a set with one unknown right; key generation, '
               f'encapsulation and refresh on not-yet-effective edits); {fails} failing calls, after each of which the canonical dump of the master key and of the user key involved is compared with the dump before the call; '
